@@ -252,7 +252,17 @@ where
     where
         Self::Scalar: BaseFloat,
     {
-        Rad::acos(Self::dot(self, other) / (self.magnitude() * other.magnitude()))
+        let cos = Self::dot(self, other) / (self.magnitude() * other.magnitude());
+        // Rounding can leave the quotient of (anti)parallel arguments just outside
+        // [-1, 1], where `acos` is NaN.
+        let one = Self::Scalar::one();
+        Rad::acos(if cos > one {
+            one
+        } else if cos < -one {
+            -one
+        } else {
+            cos
+        })
     }
 
     /// Returns the
